@@ -48,7 +48,10 @@ MonotoneOK(e, k) ==
                                              ELSE IF i = R + 2 THEN Border(e, k) ELSE RfZ(e, k, e.n - R + i - 2)])
 ShapeApplies(e) == e.outcome = "ok" /\ Len(e.outy) = (RfM(e) - 1) * e.n + 1 /\ AllFinite(e.outy)
 V_rfa_shape(e) ==
-    IF ~ShapeApplies(e) THEN {}
+    \* a sample that is not a finite number is not between the neighbouring averages (window strategies)
+    IF e.outcome = "ok" /\ Len(e.outy) = (RfM(e) - 1) * e.n + 1 /\ ~AllFinite(e.outy) /\ e.strategy \in WindowStrategies
+    THEN {"C05.bounds"}
+    ELSE IF ~ShapeApplies(e) THEN {}
     ELSE IF e.strategy \in WindowStrategies
     THEN Fail(\E k \in 0..(RfM(e) - 2) : ~PlateauOK(e, k), "C05.plateau") \cup
          Fail(\E k \in 0..(RfM(e) - 2) : ~BoundsOK(e, k), "C05.bounds") \cup
